@@ -31,7 +31,7 @@ Scope.  Exhaustive:
     hyperedges) with at most 2 (quick) / 3 (thorough) hyperedges under all 24 relabellings.
 Sampled (seeded): undirected and directed hypergraphs on 3..7 nodes, labels 0..N-1 / scattered / negative / huge
 integers, hyperedge sizes 1..6, isolated nodes, weighted and unweighted, dyadic-dense ones for the ESU pass; every
-permutation of the labels when N <= 5, else 30 random ones (order 4: 12 in quick); 10 insertion orders (hyperedge order,
+permutation of the labels when N <= 5, else 30 random ones (order 4: 10 in quick); 10 insertion orders (hyperedge order,
 node order inside a hyperedge, constructor vs add_edge, isolated nodes first / last); hyperedges larger than the order
 added to an existing hypergraph.
 
@@ -756,10 +756,10 @@ def _plan(ctx):
         p5 = _possible_u(5, 2, 4)
         for idx in _index_sets(len(p5), 3):
             heavy.append(dict(kind="u", order=4, edges=[p5[i] for i in idx], isolated=[], weighted=False, census=True))
-    for _ in range(150 if q else 2000):  # random census (sizes 1..6, isolated, weighted, odd labels)
+    for _ in range(100 if q else 1500):  # random census (sizes 1..6, isolated, weighted, odd labels)
         g = _random_u(rng, 4, 7)
         heavy.append(dict(kind="u", order=4, census=True, **g))
-    n5, nbig, nperm = (1, 8, 12) if q else (6, 50, 30)
+    n5, nbig, nperm = (1, 6, 10) if q else (6, 40, 30)
     made5 = madebig = 0
     while made5 < n5 or madebig < nbig:  # relabelling
         g = _random_u(rng, 5, 7)
@@ -776,12 +776,12 @@ def _plan(ctx):
             continue
         for i, ch in enumerate(_chunks(maps, 15)):
             heavy.append(dict(kind="u", order=4, census=(i == 0), maps=ch, **g))
-    for _ in range(10 if q else 100):  # insertion order
+    for _ in range(6 if q else 80):  # insertion order
         g = _random_u(rng, 4, 7)
         if not _census(4, g["edges"], g["isolated"]):
             g = _random_u(rng, 4, 6)
         heavy.append(dict(kind="u", order=4, census=True, shuffles=_shuffles_u(rng, g["edges"], 10), **g))
-    for _ in range(15 if q else 150):  # larger hyperedges ignored
+    for _ in range(10 if q else 100):  # larger hyperedges ignored
         g = _random_u(rng, 4, 6)
         g["edges"] = [e for e in g["edges"] if len(e) <= 4]
         nodes = set(v for e in g["edges"] for v in e) | set(g["isolated"])
@@ -840,6 +840,8 @@ def _plan(ctx):
                               extras=[_larger_d(rng, order, nodes, rng.randint(1, 3))], **g))
             if big:
                 light.append(dict(kind="d", order=order, edges=keep, isolated=g["isolated"], extras=[big]))
+    # longest tasks first (stable), so that the pool drains evenly; the merge order is the task order, hence deterministic
+    heavy.sort(key=lambda t: -(1 + len(t.get('maps', [])) + len(t.get('shuffles', [])) + len(t.get('extras', []))))
     return heavy, light
 
 
